@@ -114,6 +114,9 @@ _tok('amb_null', [Rule('start', [[N('o'), A, N('o')]]), Rule('o', [[], [A], [N('
 _tok('amb4', [Rule('start', [[N('a'), N('b'), B, B]]), Rule('a', [[A], [A, A]]), Rule('b', [[A], [A, A]])], ['A', 'B'], {'ambiguous', 'amb', 'cnf_ok'})
 _tok('amb4n', [Rule('start', [[N('a'), N('b'), B, C]]), Rule('a', [[A], []]), Rule('b', [[A], []])], ['A', 'B', 'C'], {'ambiguous', 'amb'})
 
+# a group with alternatives under ~n: every occurrence chooses its alternative independently
+_tok('repalt', [Rule('start', [[Rep(Grp([A], [B]), 2, 2), C]])], ['A', 'B', 'C'], {'lalr', 'unamb'})
+
 # a ranged repeat with lower bound 0 above lark's REPEAT_BREAK_THRESHOLD (factored into helper rules by small_factors)
 _tok('rep0big', [Rule('start', [[Rep(A, 0, 51), B]])], ['A', 'B'], {'lalr', 'unamb'})
 
@@ -208,6 +211,13 @@ _txt('twostart', [
     Rule('start', [Alt([T('A')], alias='first'), Alt([T('B')], alias='second')]),
 ], [Term('A', 'a'), Term('B', ('re', 'a')), Term('SP', ' ')], ignore=['SP'], tags={'ambiguous', 'dyn'})
 
+# a rule that nothing refers to, with a terminal of its own that overlaps the live terminals: neither takes part
+_txt('unusedterm', [
+    Rule('start', [[L('a'), L('b')], [L('a'), N('start')]]),
+    Rule('helper', [[T('WORD')]]),
+], [Term('WORD', ('re', '[a-z]+'))], tags={'lalr'})
+
+# a group with alternatives under a fixed repeat (token level twin in TOK: repalt)
 # a keyword that the lexer folds into an identifier regexp (same priority); both are acceptable in exactly the same parser states
 _txt('kwfold', [
     Rule('start', [[Grp([L('if')], [T('NAME')]), L('!')], [L('?'), L('?')]]),
